@@ -93,13 +93,17 @@ func (sc *specCtx) eval(e SpecExpr) Value {
 				sc.errorf("quantified variable %s must be scalar", v.Name)
 			}
 			sc.u.d.n++
-			bt := Term{fmt.Sprintf("%s!q%d", v.Name, sc.u.d.n), ls[0].Sort}
+			bsort := ls[0].Sort
+			if sc.u.bv && isInteger(t) {
+				bsort = BVSort(bitWidth(t))
+			}
+			bt := Term{fmt.Sprintf("%s!q%d", v.Name, sc.u.d.n), bsort}
 			vars = append(vars, bt)
 			if old, ok := sc.bound[v.Name]; ok {
 				saved[v.Name] = old
 			}
 			sc.bound[v.Name] = scalar(t, bt)
-			if lo, hi, ok := intRange(t); ok && t != tInt {
+			if lo, hi, ok := intRange(t); ok && t != tInt && !sc.u.bv {
 				guards = append(guards, App("<=", SBool, Term{lo, SInt}, bt), App("<=", SBool, bt, Term{hi, SInt}))
 			}
 		}
@@ -762,6 +766,7 @@ func (sc *specCtx) specFunc(sf *SpecFunc, x *ast.CallExpr, subs map[string]SpecE
 			}
 		}
 		if len(v.L) == len(flatten(rt)) {
+			v = u.convertConst(v, rt)
 			v.T = rt
 		}
 		return v
